@@ -101,7 +101,7 @@ let handle ws = match ws with
       let grease = (kv ws "g=" = "1") in
       let cr = n_of_string (kv ws "cr=") in
       let b = (match kv ws "b=" with "u" -> None | x -> Some (n_of_string x)) in
-      let evs = List.map parse_event (List.filter (fun s -> s <> "" && s <> "-") (String.split_on_char ',' (kv ws "ev="))) in
+      let evs = List.map parse_event (List.filter (fun s -> s <> "" && s <> "-" && not (String.length s >= 3 && String.sub s 0 3 = "SEG")) (String.split_on_char ',' (kv ws "ev="))) in
       let d0 = new_drv (if client then RClient else RServer) grease false cr b in
       let d = run_history evs d0 in
       (* blocked: the model's driver is still being built or waits for its own control stream to take the last GOAWAY;
